@@ -164,6 +164,8 @@ impl ZoneStore {
                 }
             };
         };
+        #[cfg(feature = "verif-hooks")]
+        iroh_base::verif_hooks::point_async("zone:resolve:after_store_miss", "").await;
 
         if let Some(dht) = self.dht.as_ref() {
             debug!("DHT resolve {}", pubkey.to_z32());
